@@ -149,7 +149,8 @@ def gen_pipeline(rng, nsteps, invertible=False, same_arity=None, max_dim=4):
             t = ["withinv", t, gen_same(rng, dims[i])]
         trs.append(t)
     trs.append(None)
-    names = ["detector", "focal", "sky", "v2v3", "world", "inter", "slit"]
+    # some names are substrings of others: look-ups must compare whole names
+    names = ["detector", "focal", "sky", "v2v3", "world", "inter", "slit", "det", "focal_undistorted", "sky_rot"]
     rng.shuffle(names)
     frames = [{"name": names[i], "obj": (i if rng.random() < 0.6 else None), "naxes": dims[i]} for i in range(nsteps + 1)]
     return frames, trs, dims
